@@ -9,6 +9,7 @@
 -/
 import Svgdx.Proofs.XmlEscape
 import Svgdx.Proofs.XmlWrite
+import Svgdx.Proofs.Balanced
 
 namespace Svgdx.Props.C02
 open Svgdx Xml
@@ -43,6 +44,30 @@ theorem root_namespace_version (cfg : Doc.RootCfg) (orig a : Attrs) (bb : Option
     (∀ k, Attrs.contains orig k = true → Attrs.contains a k = true) ∧ Attrs.NodupKeys a :=
   Doc.rootAttrs_namespace_version cfg orig a bb hn h
 
+/-- **tags are properly nested in everything the transformer generates**: for every document, every
+    evaluator and every fuel, a successful run of the control skeleton (elements, groups, containers,
+    loops, conditionals, reuse, generated text and tspans, retried elements put back in document order)
+    yields an event list in which every start tag is closed by an end tag of the same name, innermost
+    first — as an inductive predicate and, equivalently, as accepted by the executable stack checker.
+    A real SVG document is passed through as parsed, which is nested because the reader checked it. -/
+theorem output_tags_nested {ρ : Type} (ev : Ctl.Evalr ρ) (fuel : Nat) (st : Ctl.St ρ) (ks : Ctl.Nodes)
+    (evs : List Ctl.Ev) (bb : Option Gen.BoundingBox)
+    (h : (Ctl.transformDoc ev fuel st ks).2.2 = .ok (evs, bb)) :
+    Ctl.Balanced evs ∧ Ctl.check [] evs = some [] := by
+  have hb : Ctl.Balanced evs := by
+    unfold Ctl.transformDoc at h
+    split at h
+    · simp only [Except.ok.injEq, Prod.mk.injEq] at h
+      rw [← h.1]
+      exact Ctl.rawNodes_balanced ks
+    · exact Ctl.processNodes_balanced ev fuel st ks evs bb h
+  exact ⟨hb, hb.sound⟩
+
+/-- the stack checker and the inductive notion agree, so the statement above is not an artefact of how
+    "nested" was defined -/
+theorem nested_iff_checker (evs : List Ctl.Ev) : Ctl.Balanced evs ↔ Ctl.check [] evs = some [] :=
+  Ctl.balanced_iff_check evs
+
 /-- the rendered start tag of an emitted element quotes every value with `"` and the value contains no `"` -/
 theorem attr_value_has_no_quote (k v : Str) : ∀ c ∈ escape v, c ≠ '"' := fun c hc => (escape_safe v c hc).2.2.1
 
@@ -61,3 +86,5 @@ end Svgdx.Props.C02
 #print axioms Svgdx.Props.C02.attrmap_insert_unique
 #print axioms Svgdx.Props.C02.root_namespace_version
 #print axioms Svgdx.Props.C02.attr_value_has_no_quote
+#print axioms Svgdx.Props.C02.output_tags_nested
+#print axioms Svgdx.Props.C02.nested_iff_checker
